@@ -88,9 +88,54 @@ theorem escapeHref_injective_partial (a b : Bytes) (ha : (0x25 : UInt8) ∉ a) (
   rw [h, hrefDecode_escapeHref_partial b hb] at this
   exact this.symm
 
+/-- Wider class: the input may hold any number of `%`, as long as none of them is followed by two hex digits
+    (no text that already reads as a percent escape).  Decoding then returns the original bytes ... -/
+theorem hrefDecode_escapeHref_noPctEscape (a : Bytes) (h : noPctEscape a = true) :
+    hrefDecode (escapeHref a) = a := by
+  unfold hrefDecode
+  induction a with
+  | nil => rfl
+  | cons b r ih =>
+    simp only [noPctEscape, Bool.and_eq_true, Bool.not_eq_true', Bool.and_eq_false_iff, beq_eq_false_iff_ne] at h
+    by_cases hb : b = 0x25
+    · subst hb
+      have h2 : twoHexPrefix r = false := by
+        rcases h.1 with h1 | h1
+        · exact absurd rfl h1
+        · exact h1
+      rw [escapeHref_cons, hrefByte_pct]
+      show hrefDecodeAux 0 (0x25 :: escapeHref r) = _
+      rw [hrefDecodeAux_pct_literal _ (by rw [twoHexPrefix_escapeHref]; exact h2), ih h.2]
+    · rw [escapeHref_cons, hrefDecodeAux_hrefByte b hb, ih h.2]
+
+/-- ... hence the href escaper is injective on that class: the only collisions of `escape_href` are between
+    inputs of which at least one already contains `%XY` with two hex digits (the listed by-design finding). -/
+theorem escapeHref_injective_noPctEscape (a b : Bytes) (ha : noPctEscape a = true) (hb : noPctEscape b = true)
+    (h : escapeHref a = escapeHref b) : a = b := by
+  have := hrefDecode_escapeHref_noPctEscape a ha
+  rw [h, hrefDecode_escapeHref_noPctEscape b hb] at this
+  exact this.symm
+
+/-- The class without any `%` (the `_partial` theorems above) is inside the wider one. -/
+theorem noPctEscape_of_no_pct (a : Bytes) (h : (0x25 : UInt8) ∉ a) : noPctEscape a = true := by
+  induction a with
+  | nil => rfl
+  | cons b r ih =>
+    simp only [List.mem_cons, not_or] at h
+    have hb : (b == 0x25) = false := by simpa using fun e => h.1 e.symm
+    simp [noPctEscape, hb, ih h.2]
+
+/-- The class is tight at its boundary: one `%XY` in the input is enough for a collision. -/
+theorem noPctEscape_boundary :
+    noPctEscape [0x25, 0x30, 0x31] = false ∧ noPctEscape [0x25, 0x30, 0x47] = true ∧
+    noPctEscape [0x25, 0x25, 0x30] = true ∧ escapeHref [0x25, 0x01] = escapeHref [0x25, 0x25, 0x30, 0x31] := by
+  decide
+
 /-! Non-vacuity: concrete non-trivial values. -/
 example : escape [0x3C, 0x61, 0x26, 0x22] = entLt ++ [0x61] ++ entAmp ++ entQuot := by decide
 example : (0x25 : UInt8) ∉ ([0x01, 0x27, 0x26, 0xC3] : Bytes) := by decide
+example : noPctEscape [0x31, 0x30, 0x25, 0x20, 0x25, 0x41, 0x01, 0x25] = true := by decide
+example : hrefDecode (escapeHref [0x31, 0x30, 0x25, 0x20, 0x25, 0x41, 0x01, 0x25]) = [0x31, 0x30, 0x25, 0x20, 0x25, 0x41, 0x01, 0x25] := by decide
 example : escapeHref [0x01, 0x27, 0x26, 0xC3] =
     [0x25,0x30,0x31] ++ entApos ++ entAmp ++ [0x25,0x43,0x33] := by decide
 
